@@ -898,6 +898,9 @@ func TestVerif_C10_Alias(t *testing.T) {
 								c10CheckAlias(c, ref, rp, acts, rt, cs)
 								if acts[a1].Kind == acts[a2].Kind {
 									c.NT(fmt.Sprint(cs))
+									if c.WantSample() && n%997 == 5 && bd == "export" {
+										c.Sample(map[string]any{"route": rt.Name, "spare": spare, "import": c10ActName(acts, a0), "peerA": acts[a1].id(), "peerB": acts[a2].id()})
+									}
 								}
 							}
 						}
